@@ -74,17 +74,22 @@ def execute(prog, cfg):
                           snap=snapshot if cfg.get('snap') else None, max_actions=cfg.get('max_actions', 4000))
     lines = ex.run(make_policy(cfg['policy']))
     if cfg.get('fresh'):
-        pre = []
-        for r, spec in enumerate(prog['runs'], 1):
-            solo = copy.deepcopy(prog)
-            solo['runs'] = [spec]
-            fx = driver.Execution(solo, max_actions=4000)
-            fl = fx.run(driver.EagerPolicy(()))
-            ret = [x for x in fl if x['e'] == 'RunReturn']
-            if ret:
-                pre.append({'e': 'Fresh', 'r': r, 'kind': ret[0]['kind'], 'v': ret[0]['v']})
-        lines = pre + lines
+        lines = fresh_lines(prog) + lines
     return lines, ex
+
+
+def fresh_lines(prog):
+    """outcome of every run of prog executed alone on a freshly built chart (oracle of C07.fresh / C08.solo)"""
+    pre = []
+    for r, spec in enumerate(prog['runs'], 1):
+        solo = copy.deepcopy(prog)
+        solo['runs'] = [spec]
+        fx = driver.Execution(solo, max_actions=4000)
+        fl = fx.run(driver.EagerPolicy(()))
+        ret = [x for x in fl if x['e'] == 'RunReturn']
+        if ret:
+            pre.append({'e': 'Fresh', 'r': r, 'kind': ret[0]['kind'], 'v': ret[0]['v']})
+    return pre
 
 
 def work(chunk):
@@ -102,7 +107,22 @@ def work(chunk):
         ptla.append(P)
         for ci, cfg in enumerate(cfglist):
             try:
-                if cfg['policy'][0] == 'model':
+                if cfg['policy'][0] == 'model2':
+                    # Engine2.tla: the runs of prog as a product of run managers on one loop; every transition replayed
+                    from harness import replay
+                    r = replay.replay_graph2(prog, overlap=cfg.get('overlap', False), max_paths=cfg['policy'][1], collect=True)
+                    minfo.append({'prog': name, 'states': r['states'], 'transitions': r['transitions'], 'replayed': r['replayed'],
+                                  'walks': r['paths'], 'drift': r['divergence'], 'invariants_violated': r['model_invariants_violated'],
+                                  'liveness': None})
+                    pre = fresh_lines(prog)
+                    for k, tr in enumerate(r['traces']):
+                        tid = '%s|m2.%d.%d' % (name, ci, k)
+                        c2 = dict(cfg, fresh=True)
+                        c2['policy'] = ['script', tr['schedule']]
+                        cfgs[tid] = c2
+                        traces.append(tlc.make_trace(tid, pi, pre + tr['lines'], amb=P['amb'], overlap=cfg.get('overlap', False)))
+                        nexec += 1
+                elif cfg['policy'][0] == 'model':
                     from harness import replay
                     r = replay.replay_graph(prog, max_paths=cfg['policy'][1], collect=True, cancel=len(cfg['policy']) > 2,
                                             collab=cfg.get('mcollab'))
@@ -286,6 +306,23 @@ def build_jobs(pid, tier, seed):
             # the oracle is a fresh / solo run WITHOUT collaborator faults: keep the fault-free configurations
             cfgs = [c for c in cfgs if not c.get('faulty')]
             jobs.append((p['name'], p, cfgs))
+        # model-guided: Engine2.tla (product of run managers on one loop) for two-run programs over small shapes
+        try:
+            with open(os.path.join(ROOT, 'spec', 'instance_sizes.json')) as f:
+                sizes = json.load(f)
+        except OSError:
+            sizes = {}
+        cap = (60 if pid == 'C08' else 400) if quick else (120 if pid == 'C08' else 3000)
+        budget = 14 if quick else 10 ** 6
+        for name, p, cfgs in jobs:
+            if budget <= 0:
+                break
+            shape, tag = name.split('*')
+            base = [sizes[k] for k in sizes if k.split('#')[0] == shape]
+            if tag not in ('aa', 'ab') or not base or max(base) > cap or any(n.get('delay') for n in p['nodes']):
+                continue
+            cfgs.append(dict(policy=['model2', 400 if quick else 100000], overlap=(pid == 'C08'), snap=False))
+            budget -= 1
         return jobs
     sel = select(progs, pid)
     for p in sel:
@@ -376,7 +413,7 @@ def chunks(jobs, n):
     for j in jobs:
         i = load.index(min(load))
         out[i].append(j)
-        load[i] += sum(c['policy'][1] if c['policy'][0] == 'eager_enum' else (400 if c['policy'][0] == 'model' else 1) for c in j[2])
+        load[i] += sum(c['policy'][1] if c['policy'][0] == 'eager_enum' else (400 if c['policy'][0] in ('model', 'model2') else 1) for c in j[2])
     out = [sorted(c, key=lambda j: j[0]) for c in out if c]
     return out
 
